@@ -45,6 +45,20 @@ def run(repo: Repo, rep, tier: str):
     census_rule(repo, rep, "C07")
 
 
+def ownership_refusal(repo: Repo, rep, P: str):
+    """R4 alone (shared with C17): both operands are looked up in this project's module list before any link table is touched."""
+    proj = repo.cls("Project", module="rv.project")
+    fn = repo.own_method(proj, "connect")
+    loops, params = operand_loops(fn)
+    if not loops:
+        rep.inconclusive(f"{P}.R4", f"{proj.file.rel}:Project.connect", "", "no operand loops", proj.file.rel)
+        return
+    g = CFG(loops[-1], loop_body=True)
+    _refusal_dominates(repo, rep, P, f"{proj.file.rel}:Project.connect", proj.file.rel, g)
+    from . import c14
+    c14.module_index_rule(repo, rep, P, "R4")
+
+
 # ------------------------------------------------------------------------------ helpers
 def operand_loops(fn: ast.FunctionDef) -> Tuple[List[ast.For], List[str]]:
     params = [a.arg for a in fn.args.args if a.arg != "self"][:2]
